@@ -162,6 +162,7 @@ qb_log_thread_start(void)
 	if (res != 0) {
 		wthread_active = QB_FALSE;
 		(void)qb_thread_lock_destroy(logt_wthread_lock);
+		logt_wthread_lock = NULL;
 		return -res;
 	}
 	sem_wait(&logt_thread_start);
@@ -309,6 +310,10 @@ qb_log_thread_stop(void)
 		pthread_join(logt_thread_id, NULL);
 	}
 	(void)qb_thread_lock_destroy(logt_wthread_lock);
+	/* back to the initial state: a later qb_log_thread_start() starts a new thread */
+	logt_wthread_lock = NULL;
+	wthread_active = QB_FALSE;
+	wthread_should_exit = QB_FALSE;
 	sem_destroy(&logt_print_finished);
 	sem_destroy(&logt_thread_start);
 }
